@@ -54,6 +54,7 @@ def _impl(tier, seed, search):
             if A.shape[0] == A.shape[1] and type(X).__name__ in ('SE3', 'SE2'):
                 m = max(m, float(np.linalg.norm(A[:-1, -1])))
         return m
+    def E_of(cname): return np.eye(dict(SO2=2, SE2=3, SO3=3, SE3=4)[cname])
     for i in range(n):
         for cname, mk in classes:
             X, Y, Z = mk(), mk(), mk()
@@ -106,6 +107,17 @@ def _impl(tier, seed, search):
                 ok, r = L.noraise(f'{cname}:multi-prod', lambda: mat(Xs.prod()), inp, 'X.prod()')
                 if ok: L.close(f'{cname}:multi-prod', r, mat(xs[0]) @ mat(xs[1]) @ mat(xs[2]), 1e-9, max(1.0, float(np.max(np.abs(r)))), inp)
                 L.close(f'{cname}:multi-inverse', [np.asarray(a_, float) @ mat(x) for a_, x in zip(Xs.inv().data, xs)] if True else None, [E] * 3, 1e-9, tscale(*xs) * 1.0, inp)
+        # values produced by nested powers ((X**8)**8)**8 (drift 1e-14 .. 1e-12, far inside 1e-9) are still operands of every group operation
+        if i % 10 == 0:
+            for cname, mk in classes:
+                X0_ = mk(); inpd = dict(cls=cname, X=mat(X0_))
+                ok, P_ = L.noraise(f'{cname}:nested-power', lambda: ((X0_ ** 8) ** 8) ** 8, inpd, '((X**8)**8)**8')
+                if not ok: continue
+                Zd_ = mk()
+                for law, f_, want_ in (('inv', lambda: mat(P_.inv()) @ mat(P_), E_of(cname)), ('P*P.inv()', lambda: mat(P_ * P_.inv()), E_of(cname)), ('Z/P', lambda: mat(Zd_ / P_) @ mat(P_), mat(Zd_)), ('(Z*P).inv()', lambda: mat((Zd_ * P_).inv()), mat(P_.inv() * Zd_.inv())),
+                                       ('P**-1', lambda: mat(P_ ** -1) @ mat(P_), E_of(cname))):
+                    ok, r = L.noraise(f'{cname}:drifted:{law}', f_, inpd, f'{law} on a value produced by nested powers', sig=f'{cname}:drifted:raises')
+                    if ok: L.close(f'{cname}:drifted:{law}', r, want_, 1e-9, tscale(P_, Zd_) ** 2, inpd, sig=f'{cname}:drifted')
         # unit quaternions, up to sign
         a, c, d = (UnitQuaternion(inputs.unitq(g)) for _ in range(3))
         def qclose(law, x, y, inp):
@@ -152,6 +164,13 @@ def _impl(tier, seed, search):
                     L.close(f'Twist3:compose({nm_})', r[2], r[3], 1e-7, max(1.0, geom.tmag(r[3])), inpb, sig='Twist3:identity:scaled'); L.close(f'Twist3:(XY)^-1({nm_})', r[4], r[5], 1e-7, max(1.0, geom.tmag(r[5])), inpb, sig='Twist3:identity:scaled')
             ok, r = L.noraise('Twist3:identity', lambda: (m(Twist3() * s1), m(s1)), inp, 'Twist3() * S')
             if ok: L.close('Twist3:identity', r[0], r[1], 1e-7, max(1.0, geom.tmag(r[1])), inp)
+            # compositions whose net rotation is tiny but not zero (1e-6 .. 1e-4 rad): nothing is dropped from the logarithm
+            wt_ = inputs.unit_axis(g) * 10.0 ** g.uniform(-5.5, -4); st_ = Twist3(np.r_[inputs.unit_axis(g) * float(g.uniform(0.1, 3.0)), wt_])
+            ok, r = L.noraise('Twist3:identity(tiny rotation)', lambda: ((st_ * Twist3()).S, (Twist3() * st_).S, m((st_ * s2).inv()), m(s2.inv() * st_.inv())), dict(S=st_.S), 'Twist3 products with a tiny net rotation')
+            if ok:
+                L.close('Twist3:S*identity(tiny rotation)', r[0], st_.S, 1e-7, max(1.0, float(np.linalg.norm(st_.S[:3]))), dict(S=st_.S), what='S * Twist3() loses a rotational part of 1e-6 .. 1e-4 rad', sig='Twist3:identity:tiny-rotation')
+                L.close('Twist3:identity*S(tiny rotation)', r[1], st_.S, 1e-7, max(1.0, float(np.linalg.norm(st_.S[:3]))), dict(S=st_.S), sig='Twist3:identity:tiny-rotation')
+                L.close('Twist3:(XY)^-1(tiny rotation)', r[2], r[3], 1e-7, max(1.0, geom.tmag(r[3])), dict(S=st_.S), sig='Twist3:identity:tiny-rotation')
             def tw2():
                 return Twist2(np.r_[tr(g, -6, 2)[:2], float(g.uniform(-math.pi + 1e-3, math.pi - 1e-3))])
             u1, u2 = tw2(), tw2()
